@@ -29,7 +29,10 @@ type Options struct {
 	UseLevelDB bool
 	NoCold     bool
 	Names      []string
-	WorkRoot   string // default $VERIF_WORK or /verif/work
+	// CommSeed, if non-zero, seeds the ed25519 communication keys separately from the mnemonics
+	// (reinitialisation: same machines, fresh communication keys).
+	CommSeed uint64
+	WorkRoot string // default $VERIF_WORK or /verif/work
 }
 
 type World struct {
@@ -46,6 +49,8 @@ type World struct {
 	OpFilter func(n *Node, op *types.Operation) bool
 	// Trace of driver actions (for witnesses).
 	Trace []string
+	// AfterStep, if set, is called after every executed action of Run.
+	AfterStep func(a Action)
 }
 
 func WorkRoot() string {
@@ -79,7 +84,7 @@ func NewWorld(opt Options) (*World, error) {
 		if opt.NoCold && !opt.UseLevelDB {
 			dir = ""
 		}
-		n, err := NewNode(i, name, opt.Seed, w.Board, NodeOpts{UseLevelDB: opt.UseLevelDB, Dir: dir})
+		n, err := NewNode(i, name, opt.Seed, w.Board, NodeOpts{UseLevelDB: opt.UseLevelDB, Dir: dir, CommSeed: opt.CommSeed})
 		if err != nil {
 			w.Close()
 			return nil, err
@@ -303,6 +308,17 @@ func RandomPolicy(w *World, acts []Action) (*Action, int) {
 	return &a, upto
 }
 
+// OneAtATimePolicy: random action, polls consume exactly one message (so that every
+// (message, node) pair is met in the exact state in which the node consumes it).
+func OneAtATimePolicy(w *World, acts []Action) (*Action, int) {
+	a := acts[w.Rng.Intn(len(acts))]
+	upto := 0
+	if a.Kind == "poll" {
+		upto = int(w.Nodes[a.Node].Offset()) + 1
+	}
+	return &a, upto
+}
+
 // EagerPolicy: every node polls everything, then every operation is handled, in index order.
 func EagerPolicy(w *World, acts []Action) (*Action, int) {
 	for i := range acts {
@@ -344,9 +360,15 @@ func (w *World) Run(policy RunPolicy, maxSteps int) (int, bool) {
 				failed[a.Op.ID]++
 				w.tracef("%s op %s refused: %v", n.Name, a.Op.Type, err)
 			}
+			if w.AfterStep != nil {
+				w.AfterStep(*a)
+			}
 			continue
 		}
 		_ = w.Do(*a, upto)
+		if w.AfterStep != nil {
+			w.AfterStep(*a)
+		}
 	}
 	return maxSteps, false
 }
